@@ -68,6 +68,13 @@ var specs = map[string]propSpec{
 		},
 		Assumptions: refAssumptions("the oracle is the statement transcribed; nothing is asserted where it is silent (unprefixed tests under a map, prefix:*, navigators without NamespaceURL under a map)"),
 	},
+	"C15": {
+		Units: []unitSpec{
+			{Name: "rapid-unconstrained-expressions", Test: "TestC15Rapid", Rapid: true, QuickChecks: 60000, ThoroughChecks: 800000, QuickShards: 4, ThoroughShards: 14},
+			{Name: "enum-ill-typed-calls", Test: "TestC15Enum", QuickShards: 2, ThoroughShards: 2},
+		},
+		Assumptions: []string{"all legitimate loops of the engine go through the navigator, so an operation budget of 2*10^7 (confirmed at 4*10^7) on documents of <= ~15 nodes decides non-termination deterministically", "a panic whose value is an error but not a runtime.Error is taken to be raised deliberately by the package", "the harness navigators honour the NodeNavigator contract"},
+	},
 	"C11": {
 		Units: []unitSpec{
 			{Name: "rapid-union", Test: "TestC11Rapid", Rapid: true, QuickChecks: 60000, ThoroughChecks: 700000, QuickShards: 4, ThoroughShards: 16},
